@@ -75,7 +75,7 @@ def _run(ctx, quick, pool):
     # ---- 3. the real code along every enumerated layout ---------------------------------------------------------
     configs = loop.solver_configs()
     ncfg = len(configs)
-    per_layout = 3 if quick else ncfg
+    per_layout = 2 if quick else ncfg
     groups = {}
     for i, b in enumerate(behs):
         for jj in range(per_layout):
@@ -139,7 +139,7 @@ def _run(ctx, quick, pool):
     ctx.rule = ("TLC enumerates every strictly increasing ts = <0, S, T> with T in {11,12} ticks, |S| <= 3, dt in 1..5 ticks "
                 "(dt larger than gaps, several outputs in one step, clipped last step, outputs on and off the grid); each "
                 "layout is run on the real sdeint under a recording Brownian proxy for "
-                + ("3 solver configurations in rotation (stratified: every configuration sees every dt and T)" if quick
+                + ("2 solver configurations in rotation (stratified: every configuration sees every dt and T)" if quick
                    else "every solver configuration")
                 + " out of method x noise type x {float32,float64} x {tensor ts, list ts}; a case is non-trivial when at "
                   "least one output lies strictly inside a step")
